@@ -129,3 +129,79 @@ class TabularEnv(gym.Env):
         self.s = s2
         self.done = term or trunc
         return s2, r, term, trunc, {"episode": {"r": 0.0}}
+
+
+class ScriptEnv(gym.Env):
+    """Scripted recording environment with Box observations.
+
+    observation = [episode, t, env_id]; reward = number of steps taken so far by this
+    environment (a unique id per step, dyadic scale 1/4 optional); episode lengths and end
+    kinds come from a script that is cycled; every reset / step is logged with arguments and
+    results; stepping a finished episode without reset raises StepAfterDone.
+    `discrete` > 0 gives a Discrete(discrete) action space whose sample() calls are logged;
+    otherwise a Box(low, high) action space."""
+
+    metadata = {"render_modes": []}
+
+    def __init__(self, script, env_id=0, discrete=0, low=(-1.0,), high=(1.0,), reward_scale=1.0, obs_dim=3):
+        self.script = list(script)
+        self.env_id = env_id
+        self.obs_dim = obs_dim
+        self.observation_space = gym.spaces.Box(-1e6, 1e6, shape=(obs_dim,), dtype=np.float32)
+        if discrete:
+            self.action_space = gym.spaces.Discrete(discrete)
+        else:
+            self.action_space = gym.spaces.Box(np.asarray(low, dtype=np.float32), np.asarray(high, dtype=np.float32), dtype=np.float32)
+        self.discrete = discrete
+        self.reward_scale = reward_scale
+        self.log = []
+        self.samples = 0
+        self._orig_sample = self.action_space.sample
+
+        def _logged_sample(*a, **k):
+            self.samples += 1
+            self.log.append(("sample",))
+            return self._orig_sample(*a, **k)
+        self.action_space.sample = _logged_sample
+        self.ep = -1
+        self.t = 0
+        self.steps = 0
+        self.done = True
+        self.cur = None
+
+    def _obs(self):
+        o = np.zeros(self.obs_dim, dtype=np.float32)
+        o[0], o[1] = self.ep, self.t
+        if self.obs_dim > 2:
+            o[2] = self.env_id
+        return o
+
+    def reset(self, *, seed=None, options=None):
+        if seed is not None:
+            self.action_space.seed(seed)
+        self.ep += 1
+        self.t = 0
+        self.done = False
+        self.cur = self._obs()
+        self.log.append(("reset", self.cur.copy(), seed))
+        return self.cur.copy(), {}
+
+    def step(self, action):
+        if self.done:
+            raise StepAfterDone(f"env {self.env_id}: step() on a finished episode without reset()")
+        a = np.array(action, copy=True)
+        prev = self.cur.copy()
+        self.t += 1
+        self.steps += 1
+        L, kind = self.script[self.ep % len(self.script)]
+        term = bool(self.t >= L and kind == "term")
+        trunc = bool(self.t >= L and kind == "trunc")
+        self.cur = self._obs()
+        r = float(self.steps * self.reward_scale)
+        self.log.append(("step", prev, a, r, self.cur.copy(), term, trunc))
+        self.done = term or trunc
+        return self.cur.copy(), r, term, trunc, {}
+
+    # helpers for the checks
+    def step_events(self):
+        return [e for e in self.log if e[0] == "step"]
